@@ -193,11 +193,11 @@ def merge(mesh_list : list) -> Mesh:
     for to_merge in mesh_list:
         merged.vertices += [Vec(v).copy() for v in to_merge.vertices] # copy: the merged mesh must not share coordinate storage with its inputs
         if hasattr(to_merge, "edges") : 
-            merged.edges += [tuple((vertex_offset+u for u in e)) for e in to_merge.edges]
+            merged.edges += [tuple((vertex_offset+int(u) for u in e)) for e in to_merge.edges]
         if hasattr(to_merge, "faces") : 
-            merged.faces += [tuple((vertex_offset+u for u in f)) for f in to_merge.faces]
+            merged.faces += [tuple((vertex_offset+int(u) for u in f)) for f in to_merge.faces]
         if hasattr(to_merge, "cells") :
-            merged.cells += [tuple((vertex_offset+u for u in c)) for c in to_merge.cells]
+            merged.cells += [tuple((vertex_offset+int(u) for u in c)) for c in to_merge.cells]
         vertex_offset += len(to_merge.vertices)
     return _instanciate_raw_mesh_data(merged)
 
